@@ -4,6 +4,6 @@ CONSTANTS
   Pre = 2
   AppendMode = FALSE
 SPECIFICATION TSpec
-INVARIANTS Durable NotInterleaved ThreadOrder PrefixKept TruncatedAtOpen WholeExceptHolder NoDupNoLoss
+INVARIANTS Durable NotInterleaved ThreadOrder PrefixKept TruncatedAtOpen WholeExceptHolder NoDupNoLoss FailedNotAcked
 POSTCONDITION Accepted
 CHECK_DEADLOCK FALSE
